@@ -9,7 +9,20 @@ import vlib
 from checks import gsp_util
 
 
+def replay(c):
+    _, reset = gsp_util.load_replay(c)
+    scen, trace = c.path("replay_scen.ndjson"), c.path("replay_trace.ndjson")
+    base = "pick" in reset
+    with open(scen, "w") as f:
+        f.write(json.dumps({k: reset[k] for k in (("pick", "script") if base else ("parallel", "script"))}) + "\n")
+    c.vh(["gsp-baseleecher" if base else "gsp-peerleecher", scen, trace])
+    r = gsp_util.validate_many(c, "gsp", "BaseLeecherTrace" if base else "PeerLeecherTrace", trace, parallel=1)
+    return gsp_util.finish_replay(c, r, "BaseLeecher" if base else "BasePeerLeecher")
+
+
 def run(c):
+    if c.replay:
+        return replay(c)
     W = 6
     # the clauses hold on the abstract machines themselves
     r1 = c.tlc_must_pass("gsp", "BaseLeecher", cfg="MC_BaseLeecher", workers=2, timeout=600)
